@@ -303,9 +303,10 @@ func genEvents(t *rapid.T) []int32 {
 	return append(evs, extra...)
 }
 
-// kindWeights: 3 in 20 cases are socket-path cases (they are also enumerated completely in
-// TestExh_C17), the rest are registration queues.
-var kindWeights = []string{"reg", "reg", "reg", "sock", "reg", "reg", "reg", "reg", "reg", "reg", "sock", "reg", "reg", "reg", "reg", "reg", "reg", "sock", "reg", "reg"}
+// kindWeights: 6 in 20 cases are socket-path cases (cheap: a few ms each; the umask x
+// directory grid and the option orders are also enumerated in TestExh_C17), the rest are
+// registration queues.
+var kindWeights = []string{"reg", "sock", "reg", "reg", "sock", "reg", "reg", "sock", "reg", "reg", "reg", "sock", "reg", "reg", "sock", "reg", "reg", "sock", "reg", "reg"}
 
 func genC17(t *rapid.T) C17Case {
 	// (SampledFrom, not IntRange: rapid biases integer ranges towards their ends)
